@@ -149,3 +149,40 @@ pub fn drops_all_once() -> bool {
     }
     ok
 }
+
+/// A by-value iterator source whose items are handed out under the schedule model: inside a modelled pull it yields
+/// the positions that pull obtained (see model::sched_pos), otherwise (sequential mode, oracle, native replay) it is
+/// the plain sequential iterator over `data`.  `exact` selects an exact size_hint (known length) or none (unknown).
+#[derive(Clone)]
+pub struct SchedIter<T: Copy, const N: usize> {
+    pub data: [T; N],
+    pub seq: usize,
+    pub exact: bool,
+}
+impl<T: Copy, const N: usize> SchedIter<T, N> {
+    pub fn new(data: [T; N], exact: bool) -> Self {
+        SchedIter { data, seq: 0, exact }
+    }
+}
+impl<T: Copy, const N: usize> Iterator for SchedIter<T, N> {
+    type Item = T;
+    fn next(&mut self) -> Option<T> {
+        if let Some(p) = model::sched_pos() {
+            return p.map(|i| self.data[i]);
+        }
+        if self.seq < N {
+            let v = self.data[self.seq];
+            self.seq += 1;
+            Some(v)
+        } else {
+            None
+        }
+    }
+    fn size_hint(&self) -> (usize, Option<usize>) {
+        if self.exact {
+            (N - self.seq, Some(N - self.seq))
+        } else {
+            (0, None)
+        }
+    }
+}
